@@ -276,6 +276,18 @@ def dyadic_regions():
             ys = [round(cy) + (int(abs(v[1]) * 64) % 3) * h for v in vs[:n]]
             return {'cls': 'PolygonPixelRegion', 'vertices': [xs, ys],
                     'exact_ties': True}
+        if kind in ('point', 'text', 'line'):
+            # shapes without area: only the box can follow the translation;
+            # coordinates on pixel edges (half-integers) in half of the cases
+            hx = (round(cx * 2) / 2.0) if n % 2 else cx
+            hy = (round(cy * 2) / 2.0) if n % 3 else cy
+            if kind == 'point':
+                return {'cls': 'PointPixelRegion', 'center': [hx, hy]}
+            if kind == 'text':
+                return {'cls': 'TextPixelRegion', 'center': [hx, hy],
+                        'text': 'label'}
+            return {'cls': 'LinePixelRegion', 'start': [hx, hy],
+                    'end': [hx + vs[0][0], hy + round(vs[0][1] * 2) / 2.0]}
         if kind == 'regpoly':
             return {'cls': 'RegularPolygonPixelRegion', 'center': c,
                     'nvertices': n, 'radius': a, 'angle': an}
@@ -290,7 +302,8 @@ def dyadic_regions():
     off = st.integers(-640, 640).map(lambda k: k / 64.0)
     leaf = st.tuples(
         st.sampled_from(['circle', 'ellipse', 'rect', 'poly', 'regpoly',
-                         'cann', 'eann', 'rann', 'polyq']),
+                         'cann', 'eann', 'rann', 'polyq', 'point', 'text',
+                         'line']),
         d, d, s, s, ang, st.integers(3, 8),
         st.lists(st.tuples(off, off), min_size=8, max_size=8)).map(mk)
     return st.one_of(leaf, leaf, G.compound(leaf, max_depth=2,
@@ -305,6 +318,9 @@ def translate(rs, tx, ty):
         return rs
     if 'center' in rs:
         rs['center'] = [rs['center'][0] + tx, rs['center'][1] + ty]
+    for k in ('start', 'end'):
+        if k in rs:
+            rs[k] = [rs[k][0] + tx, rs[k][1] + ty]
     if 'vertices' in rs:
         rs['vertices'] = [[v + tx for v in rs['vertices'][0]],
                           [v + ty for v in rs['vertices'][1]]]
@@ -345,6 +361,10 @@ class Translate(Relation):
                       b0.iymax + ty),
                   f'{cls} | bounding box is not translated by the same amount',
                   f'{b0} + ({tx}, {ty}) -> {b1}')
+        if any(leaf['cls'] in ('PointPixelRegion', 'TextPixelRegion',
+                               'LinePixelRegion') for leaf in G.leaves(rs)):
+            ctx.nontrivial(max(abs(tx), abs(ty)) >= 100)
+            return              # (no masks for shapes without area)
         if b0.shape[0] * b0.shape[1] > 250 * 250:
             ctx.count('outside_domain_huge_mask')
             return
